@@ -90,12 +90,17 @@ func (r *stratRun) held() []hotstuff.QuorumCert {
 	for _, qc := range r.qcFor {
 		l = append(l, qc)
 	}
+	// newest certified view first; among blocks of one view (equivocation) the one proposed first comes first. (Block hashes
+	// contain the wall clock, so they must not decide anything here.)
+	order := map[hotstuff.Hash]int{}
+	for i, b := range r.cl.AllBlk {
+		order[b.Hash()] = i
+	}
 	sort.Slice(l, func(i, j int) bool {
 		if l[i].View() != l[j].View() {
 			return l[i].View() > l[j].View()
 		}
-		hi, hj := l[i].BlockHash(), l[j].BlockHash()
-		return string(hi[:]) < string(hj[:])
+		return order[l[i].BlockHash()] < order[l[j].BlockHash()]
 	})
 	return append(l, hotstuff.NewQuorumCert(nil, 0, hotstuff.GetGenesis().Hash()))
 }
